@@ -101,7 +101,7 @@ func newSwitch(c *tmcfg.Config) *p2p.Switch {
 	return sw
 }
 
-func newNode(kind string) (n *node, err error) {
+func newNode(kind string, mode string) (n *node, err error) {
 	n = &node{kind: kind}
 	dir, e := os.MkdirTemp("", "c17-")
 	if e != nil {
@@ -116,7 +116,10 @@ func newNode(kind string) (n *node, err error) {
 	c.Consensus.TimeoutPropose = time.Hour
 	c.Consensus.TimeoutPrevote = time.Hour
 	c.Consensus.TimeoutPrecommit = time.Hour
-	c.Consensus.TimeoutCommit = time.Hour
+	c.Consensus.TimeoutCommit = time.Hour // the node waits in RoundStepNewHeight
+	if mode == "propose" {
+		c.Consensus.TimeoutCommit = time.Millisecond // the node moves on to RoundStepPropose
+	}
 	c.Consensus.SetWalFile(filepath.Join(dir, "data", "cs.wal", "wal"))
 	genDoc, pvs := genesis()
 	n.vals = pvs
@@ -165,6 +168,11 @@ func newNode(kind string) (n *node, err error) {
 		n.stop = append(n.stop, func() { r.Stop(); cs.Wait(); eb.Stop() }) //nolint
 		n.reactor = r
 		r.InitPeer(n.peer)
+		if mode == "propose" {
+			for i := 0; i < 2000 && cs.GetRoundState().Step < 3; i++ {
+				time.Sleep(time.Millisecond)
+			}
+		}
 	case "mempool":
 		mp := mpv0.NewCListMempool(c.Mempool, proxyApp.Mempool(), 0)
 		r := mpv0.NewReactor(c.Mempool, mp)
@@ -350,7 +358,7 @@ func execReactor(c core.Case) []string {
 				n.close()
 			}
 			var err error
-			n, err = newNode(m["kind"])
+			n, err = newNode(m["kind"], m["mode"])
 			if err != nil {
 				n = nil
 				out = append(out, "setup-error:"+err.Error())
@@ -558,12 +566,13 @@ func bstr(b *tmbits.BitArray) string {
 }
 
 func genConsensusCase(r *rand.Rand) []string {
-	n, err := newNode("consensus")
+	mode := []string{"newheight", "propose"}[r.Intn(2)]
+	n, err := newNode("consensus", mode)
 	if err != nil {
 		panic(err)
 	}
 	defer n.close()
-	g := &rgen{n: n, ops: []string{"reactor kind=consensus"}}
+	g := &rgen{n: n, ops: []string{"reactor kind=consensus mode=" + mode}}
 	steps := 3 + r.Intn(10)
 	height := int64(1)
 	round := int32(0)
@@ -692,7 +701,16 @@ func genConsensusCase(r *rand.Rand) []string {
 			if r.Intn(4) == 0 {
 				vt.Height, vt.Round = hostileInt64(r), hostileInt32(r)
 			}
+			if r.Intn(3) == 0 { // a precommit "for the previous height" while the node sits at its initial height
+				vt.Height, vt.Type, vt.ValidatorIndex = 0, tmproto.PrecommitType, int32(r.Intn(5))
+				vt.BlockID = blockID(r, true)
+			}
 			v = g.msg(0x22, "opaque-vote", "", consMsg(&tmcons.Vote{Vote: &vt}))
+			if v == "ok" {
+				if h := g.n.health(); h != "healthy" {
+					note("generator-saw-" + h)
+				}
+			}
 			if v == "ok" {
 				g.gossip("vote")
 			}
@@ -717,7 +735,7 @@ func (p *merkleProof) proto(r *rand.Rand) *tmcrypto.Proof {
 
 // other reactors: garbage and a few decodable hostile messages per reactor
 func genOtherCase(r *rand.Rand, kind string) []string {
-	n, err := newNode(kind)
+	n, err := newNode(kind, "")
 	if err != nil {
 		panic(err)
 	}
